@@ -254,11 +254,47 @@ def _reduce(fn):
 def _np_argext(fn):
     def f(ex, st, args, kw, node):
         d = ex.arr(st, args[0])
-        if d.rank != 1 or d.elem != "real":
-            raise Undecided("argmin/argmax of non real 1-D")
+        if d.rank != 1 or d.elem not in ("real", "int"):
+            raise Undecided("argmin/argmax of non numeric 1-D")
+        if ex.spec_mode:
+            raise Undecided("argmin/argmax inside a specification (use the quantified characterisation)")
         ex.safe(st, "argext-nonempty", d.shape[0] >= 1, node)
-        return fn(d.data, d.shape[0])
+        # A-ARGMIN / A-ARGMAX: numpy returns the first index of the extremum.  The result is a fresh constant with that
+        # (complete) characterisation - no function symbol over array-valued terms is introduced.
+        r = ex.fresh("argmin" if fn is ARGMIN else "argmax", I)
+        st.pc += [z3.simplify(x) for x in facts_argext(d.data, d.shape[0], r, fn is ARGMIN)]
+        return r
     return FuncV(f, str(fn))
+
+
+def facts_argext(data, n, r, is_min):
+    k = z3.Int("k!am")
+    a, b = z3.Select(data, r), z3.Select(data, k)
+    return [z3.And(r >= 0, r < n),
+            z3.ForAll([k], z3.Implies(z3.And(k >= 0, k < n), (a <= b) if is_min else (a >= b))),
+            z3.ForAll([k], z3.Implies(z3.And(k >= 0, k < r), (b > a) if is_min else (b < a)))]
+
+
+def _np_ext(is_min):
+    def f(ex, st, args, kw, node):
+        d = ex.arr(st, args[0])
+        if d.rank != 1 or kw or d.elem not in ("real", "int"):
+            raise Undecided("min/max with axis / rank 2")
+        if ex.spec_mode:
+            raise Undecided("min/max of an array inside a specification (use the quantified characterisation)")
+        ex.safe(st, "minmax-nonempty", d.shape[0] >= 1, node)
+        r = ex.fresh("amin" if is_min else "amax", R if d.elem == "real" else I)
+        st.pc += [z3.simplify(x) for x in facts_ext(d.data, d.shape[0], r, is_min)]
+        return r
+    return FuncV(f, "np.min" if is_min else "np.max")
+
+
+def facts_ext(data, n, r, is_min):
+    """A-NP-MIN / A-NP-MAX: the extremum bounds every element and is attained."""
+    k = z3.Int("k!mx")
+    b = z3.Select(data, k)
+    return [z3.ForAll([k], z3.Implies(z3.And(k >= 0, k < n), (r <= b) if is_min else (r >= b))),
+            z3.Exists([k], z3.And(k >= 0, k < n, b == r))]
 
 
 def facts_argmin(data, n):
@@ -330,11 +366,7 @@ def _minmax(sel):
         if len(args) == 1:
             x = args[0]
             if isinstance(x, ARef):
-                d = ex.arr(st, x)
-                ex.safe(st, "minmax-nonempty", d.shape[0] >= 1, node)
-                if d.elem != "real":
-                    raise Undecided("min/max of non-real array")
-                return (AMIN if sel == "min" else AMAX)(d.data, d.shape[0])
+                return _np_ext(sel == "min").fn(ex, st, [x], {}, node)
             if isinstance(x, LRef):
                 args = st.heap[x.sid].items
             elif isinstance(x, (Tup, tuple)):
@@ -466,7 +498,7 @@ NP = ModV("np", {
     "empty_like": _np_like("empty_like"), "zeros_like": _np_like("zeros_like"), "ones_like": _np_like("ones_like"),
     "full_like": _np_like("full_like"),
     "array": FuncV(_np_array, "np.array"), "where": FuncV(_np_where, "np.where"),
-    "sum": _reduce(SUM), "mean": _reduce(MEAN), "max": _reduce(AMAX), "min": _reduce(AMIN),
+    "sum": _reduce(SUM), "mean": _reduce(MEAN), "max": _np_ext(False), "min": _np_ext(True),
     "argmin": _np_argext(ARGMIN), "argmax": _np_argext(ARGMAX),
     "nan": None,
 })
@@ -481,3 +513,18 @@ BUILTINS = {
     # spec-level names for the uninterpreted mathematics
     "sqrt": SQRT, "sin": SIN, "cos": COS, "log10": LOG10, "pow10": POW10, "exp": EXP, "log": LOG, "pi": PI,
 }
+
+
+def facts_amax(data, n):
+    """A-NP-MAX: the maximum is attained and bounds every element (n >= 1)."""
+    k = z3.Int("k!mx")
+    m = AMAX(data, n)
+    return [z3.ForAll([k], z3.Implies(z3.And(k >= 0, k < n), z3.Select(data, k) <= m)),
+            z3.Implies(n >= 1, z3.Exists([k], z3.And(k >= 0, k < n, z3.Select(data, k) == m)))]
+
+
+def facts_amin(data, n):
+    k = z3.Int("k!mn")
+    m = AMIN(data, n)
+    return [z3.ForAll([k], z3.Implies(z3.And(k >= 0, k < n), z3.Select(data, k) >= m)),
+            z3.Implies(n >= 1, z3.Exists([k], z3.And(k >= 0, k < n, z3.Select(data, k) == m)))]
